@@ -222,44 +222,72 @@ theorem dropEventW_next (it : QItem) (w : World) : (dropEventW it w).nextESerial
   simp only [dropEventW, dropCellW]
   split <;> rfl
 
-theorem LZ.tail {b : Bool} {s : Nat} {Z : List Nat} {w : World} (h : LZ b (s :: Z) w) : LZ b Z w :=
-  ⟨h.1, Acct.sub h.2 (List.sublist_cons_self _ _)⟩
+/-! ### generic in the accounting predicate
+
+The handler-level triples only use that the accounting predicate is invariant under permutation and that a freshly
+allocated serial may be added; they are proved once, for every such predicate: `Acct` (no serial twice, this file) and
+`Cover` (no serial missing, `Proofs/EvLedgerCons.lean`). -/
+
+/-- an accounting predicate `A n l` (`n` the next serial, `l` the serials accounted for) -/
+structure Accounting (A : Nat → List Nat → Prop) : Prop where
+  perm : ∀ {n : Nat} {l l' : List Nat}, A n l → l.Perm l' → A n l'
+  fresh : ∀ {n : Nat} {l : List Nat}, A n l → A (n + 1) (n :: l)
+
+theorem acct_accounting : Accounting Acct := ⟨Acct.perm, Acct.fresh⟩
+
+/-- `Led`, `LZ`, `LIn`, `LedI` for an arbitrary accounting predicate -/
+abbrev LedA (A : Nat → List Nat → Prop) (Z : List Nat) : World → Prop := LP fun q e n _ => A n (Z ++ (pend q ++ e))
+abbrev LZA (A : Nat → List Nat → Prop) (b : Bool) (Z : List Nat) : World → Prop :=
+  LP fun q e n f => f = b ∧ A n (Z ++ (pend q ++ e))
+abbrev LInA (A : Nat → List Nat → Prop) (it : QItem) (Z : List Nat) (b : Bool) : World → Prop :=
+  LP fun q e n f => f = b ∧ A n ((inFl it b ++ Z) ++ (pend q ++ e))
+abbrev LedIA (A : Nat → List Nat → Prop) (it : QItem) (Z : List Nat) : World → Prop :=
+  LP fun q e n f => A n ((inFl it f ++ Z) ++ (pend q ++ e))
+
+section generic
+variable {A : Nat → List Nat → Prop}
+
+theorem LZA.ledI {it : QItem} {b : Bool} {Z : List Nat} {w : World} (h : LInA A it Z b w) : LedIA A it Z w := by
+  obtain ⟨hf, ha⟩ := h
+  show A _ ((inFl it w.inflightOwned ++ Z) ++ _)
+  rw [hf]; exact ha
+
+theorem Hoare.set_ok {P Q : World → Prop} {E : Err → World → Prop} {w' : World} (h : Q w') :
+    Hoare P (set w' : M PUnit) (fun _ => Q) E := ⟨fun _ _ => h⟩
 
 /-- a fresh serial -/
-theorem freshE_led : Hoare (LZ b Z) freshE (fun s => LZ b (s :: Z)) (fun _ => LZ b Z) := by
+theorem freshE_ledA (hA : Accounting A) : Hoare (LZA A b Z) freshE (fun s => LZA A b (s :: Z)) (fun _ => LZA A b Z) := by
   refine ⟨fun w hw => ?_⟩
-  show _ ∧ Acct (w.nextESerial + 1) ((w.nextESerial :: Z) ++ _)
-  exact ⟨hw.1, hw.2.fresh⟩
+  show _ ∧ A (w.nextESerial + 1) ((w.nextESerial :: Z) ++ _)
+  exact ⟨hw.1, hA.fresh hw.2⟩
 
 /-- an event value in hand is queued -/
-theorem push_led (x : QItem) {Y : List Nat} (hY : ledgerOf x = Y) :
-    Hoare (LZ b (Y ++ Z)) (push x) (fun _ => LZ b Z) (fun _ => LZ b Z) := by
+theorem push_ledA (hA : Accounting A) (x : QItem) {Y : List Nat} (hY : ledgerOf x = Y) :
+    Hoare (LZA A b (Y ++ Z)) (push x) (fun _ => LZA A b Z) (fun _ => LZA A b Z) := by
   subst hY
   refine ⟨fun w hw => ?_⟩
-  show _ ∧ Acct _ (Z ++ (pend (w.queue ++ [x]) ++ w.edrops))
-  refine ⟨hw.1, hw.2.perm ?_⟩
+  show _ ∧ A _ (Z ++ (pend (w.queue ++ [x]) ++ w.edrops))
+  refine ⟨hw.1, hA.perm hw.2 ?_⟩
   rw [pend_append, pend_singleton]
   perm_app
 
 /-- an event value in hand is destroyed -/
-theorem dropEvent_led (x : QItem) {Y : List Nat} (hY : ledgerOf x = Y) :
-    Hoare (LZ b (Y ++ Z)) (dropEvent x) (fun _ => LZ b Z) (fun _ => LZ b Z) := by
+theorem dropEvent_ledA (hA : Accounting A) (x : QItem) {Y : List Nat} (hY : ledgerOf x = Y) :
+    Hoare (LZA A b (Y ++ Z)) (dropEvent x) (fun _ => LZA A b Z) (fun _ => LZA A b Z) := by
   subst hY
   refine ⟨fun w hw => ?_⟩
   rw [run_dropEvent]
-  show _ ∧ Acct _ (Z ++ (pend (dropEventW x w).queue ++ (dropEventW x w).edrops))
+  show _ ∧ A _ (Z ++ (pend (dropEventW x w).queue ++ (dropEventW x w).edrops))
   rw [dropEventW_queue', dropEventW_edrops, dropEventW_next, dropEventW_flag, dropE_eq]
-  refine ⟨hw.1, hw.2.perm ?_⟩
+  refine ⟨hw.1, hA.perm hw.2 ?_⟩
   perm_app
 
-
-theorem senderPush_led (h : HInfo) (x : QItem) {Y : List Nat} (hY : ledgerOf x = Y) :
-    Hoare (LZ b (Y ++ Z)) (senderPush h x) (fun _ => LZ b Z) (fun _ => LZ b Z) := by
+theorem senderPush_ledA (hA : Accounting A) (h : HInfo) (x : QItem) {Y : List Nat} (hY : ledgerOf x = Y) :
+    Hoare (LZA A b (Y ++ Z)) (senderPush h x) (fun _ => LZA A b Z) (fun _ => LZA A b Z) := by
   unfold senderPush
   split
-  · exact Hoare.bind (dropEvent_led x hY) fun _ => Hoare.throw fun _ h => h
-  · exact push_led _ hY
-
+  · exact Hoare.bind (dropEvent_ledA hA x hY) fun _ => Hoare.throw fun _ h => h
+  · exact push_ledA hA _ hY
 
 /-- special steps of the walk below; extended with `macro_rules` -/
 syntax "ledh_special" : tactic
@@ -289,28 +317,31 @@ macro_rules
       | split)
 macro "ledh" : tactic => `(tactic| repeat' ledh_step)
 
-theorem senderPush_led1 (h : HInfo) (x : QItem) {s : Nat} (hY : ledgerOf x = [s]) :
-    Hoare (LZ b (s :: Z)) (senderPush h x) (fun _ => LZ b Z) (fun _ => LZ b Z) := senderPush_led h x hY
-theorem senderPush_led0 (h : HInfo) (x : QItem) (hY : ledgerOf x = []) :
-    Hoare (LZ b Z) (senderPush h x) (fun _ => LZ b Z) (fun _ => LZ b Z) := senderPush_led h x hY
-theorem push_led0 (x : QItem) (hY : ledgerOf x = []) :
-    Hoare (LZ b Z) (push x) (fun _ => LZ b Z) (fun _ => LZ b Z) := push_led x hY
+theorem senderPush_ledA1 (hA : Accounting A) (h : HInfo) (x : QItem) {s : Nat} (hY : ledgerOf x = [s]) :
+    Hoare (LZA A b (s :: Z)) (senderPush h x) (fun _ => LZA A b Z) (fun _ => LZA A b Z) := senderPush_ledA hA h x hY
+theorem senderPush_ledA0 (hA : Accounting A) (h : HInfo) (x : QItem) (hY : ledgerOf x = []) :
+    Hoare (LZA A b Z) (senderPush h x) (fun _ => LZA A b Z) (fun _ => LZA A b Z) := senderPush_ledA hA h x hY
+theorem push_ledA0 (hA : Accounting A) (x : QItem) (hY : ledgerOf x = []) :
+    Hoare (LZA A b Z) (push x) (fun _ => LZA A b Z) (fun _ => LZA A b Z) := push_ledA hA x hY
 
 local macro_rules
   | `(tactic| ledh_special) => `(tactic| first
-      | (with_reducible refine Hoare.bind freshE_led (fun s => ?_))
-      | ((with_reducible refine Hoare.bind (senderPush_led1 _ _ ?hY) (fun _ => ?_)); (case hY => rfl))
-      | ((with_reducible refine Hoare.bind (senderPush_led0 _ _ ?hY) (fun _ => ?_)); (case hY => rfl))
-      | ((with_reducible refine Hoare.bind (push_led0 _ ?hY) (fun _ => ?_)); (case hY => rfl)))
+      | (with_reducible refine Hoare.bind (freshE_ledA ‹Accounting _›) (fun s => ?_))
+      | ((with_reducible refine Hoare.bind (senderPush_ledA1 ‹Accounting _› _ _ ?hY) (fun _ => ?_)); (case hY => rfl))
+      | ((with_reducible refine Hoare.bind (senderPush_ledA0 ‹Accounting _› _ _ ?hY) (fun _ => ?_)); (case hY => rfl))
+      | ((with_reducible refine Hoare.bind (push_ledA0 ‹Accounting _› _ ?hY) (fun _ => ?_)); (case hY => rfl)))
 
-theorem runAct_led (hk : Key) (it : QItem) (loc : Loc) (act : Act) :
-    Hoare (LIn it Z b) (runAct hk it loc act) (fun r => LIn it Z (r || b)) (fun _ => LIn it Z b) := by
+/-- **one handler action**: it returns `true` iff it took the event, which it can only do while the flag is clear; taking
+    moves the serial from "in flight" to the ledger and sets the flag, in one step; a send allocates a serial and queues
+    the event under it, or — rejected by the event-set lookup — destroys it at once -/
+theorem runAct_ledA (hA : Accounting A) (hk : Key) (it : QItem) (loc : Loc) (act : Act) :
+    Hoare (LInA A it Z b) (runAct hk it loc act) (fun r => LInA A it Z (r || b)) (fun _ => LInA A it Z b) := by
   unfold runAct
   refine Hoare.get_bind fun w hw => ?_
   split
   · split
     all_goals try (ledh; done)
-    · -- `take`: the serial moves from "in flight" to the ledger and the flag is set, in one step
+    · -- `take`
       dsimp only
       split
       · rename_i hc
@@ -324,54 +355,72 @@ theorem runAct_led (hk : Key) (it : QItem) (loc : Loc) (act : Act) :
         refine ⟨fun w2 hw2 => ?_⟩
         simp only [logT, run_bind, run_modify, run_dropEvent, run_pure]
         refine ⟨rfl, ?_⟩
-        show Acct (dropEventW it _).nextESerial ((inFl it true ++ Z) ++ (pend (dropEventW it _).queue ++ (dropEventW it _).edrops))
+        show A (dropEventW it _).nextESerial ((inFl it true ++ Z) ++ (pend (dropEventW it _).queue ++ (dropEventW it _).edrops))
         rw [dropEventW_next, dropEventW_queue', dropEventW_edrops, dropE_eq]
-        refine hw2.2.perm ?_
+        refine hA.perm hw2.2 ?_
         show ((ledgerOf it ++ Z) ++ (pend w2.queue ++ w2.edrops)).Perm (([] ++ Z) ++ (pend w2.queue ++ (ledgerOf it ++ w2.edrops)))
         perm_app
       · exact Hoare.pure fun _ h => h
     · -- `alloc`: a serial is in hand across the write to `arenaCount`
       ledh
-      exact Hoare.of_keeps (Keeps.set (by assumption)) (fun _ _ h => LZ.tail h)
+      exact Hoare.set_ok (by assumption)
   · ledh
 
-theorem LIn.bool {it : QItem} {b1 b2 : Bool} {w : World} (hb : b1 = b2) (h : LIn it Z b1 w) : LIn it Z b2 w := hb ▸ h
+theorem LInA.bool {it : QItem} {b1 b2 : Bool} {w : World} (hb : b1 = b2) (h : LInA A it Z b1 w) : LInA A it Z b2 w :=
+  hb ▸ h
 
 /-- the body loop of `runHandler`: the flag after the loop is the flag before or-ed with "some action took" -/
-theorem bodyLoop_led {γ : Type} {acts : List γ} {rd : Bool} {sd : List Nat}
+theorem bodyLoop_ledA {γ : Type} {acts : List γ} {rd : Bool} {sd : List Nat}
     {f : γ → Bool × Bool × List Nat → M (ForInStep (Bool × Bool × List Nat))} {it : QItem}
-    (h0 : ∀ a o rd sd, Hoare (LIn it Z (o || b)) (f a (o, rd, sd)) (fun r => LIn it Z (r.value.1 || b))
-      (fun _ => LedI it Z)) :
-    Hoare (LIn it Z b) (forIn acts (false, rd, sd) f >>= fun s => pure s.1) (fun o => LIn it Z (o || b))
-      (fun _ => LedI it Z) := by
-  refine Hoare.bind (R := fun (s : Bool × Bool × List Nat) => LIn it Z (s.1 || b)) ?_
+    (h0 : ∀ a o rd sd, Hoare (LInA A it Z (o || b)) (f a (o, rd, sd)) (fun r => LInA A it Z (r.value.1 || b))
+      (fun _ => LedIA A it Z)) :
+    Hoare (LInA A it Z b) (forIn acts (false, rd, sd) f >>= fun s => pure s.1) (fun o => LInA A it Z (o || b))
+      (fun _ => LedIA A it Z) := by
+  refine Hoare.bind (R := fun (s : Bool × Bool × List Nat) => LInA A it Z (s.1 || b)) ?_
     (fun s => Hoare.pure fun _ h => h)
-  refine Hoare.pre (Hoare.forIn_list (fun (s : Bool × Bool × List Nat) => LIn it Z (s.1 || b)) ?_) (fun _ h => h)
+  refine Hoare.pre (Hoare.forIn_list (fun (s : Bool × Bool × List Nat) => LInA A it Z (s.1 || b)) ?_) (fun _ h => h)
   rintro a ⟨o, rd, sd⟩
   exact h0 a o rd sd
 
-theorem runAct_ledI (hk : Key) (it : QItem) (loc : Loc) (act : Act) :
-    Hoare (LIn it Z b) (runAct hk it loc act) (fun r => LIn it Z (r || b)) (fun _ => LedI it Z) :=
-  Hoare.post (runAct_led hk it loc act) (fun _ _ h => h) (fun _ _ h => LZ.ledI h)
+theorem runAct_ledIA (hA : Accounting A) (hk : Key) (it : QItem) (loc : Loc) (act : Act) :
+    Hoare (LInA A it Z b) (runAct hk it loc act) (fun r => LInA A it Z (r || b)) (fun _ => LedIA A it Z) :=
+  Hoare.post (runAct_ledA hA hk it loc act) (fun _ _ h => h) (fun _ _ h => LZA.ledI h)
 
-local macro_rules | `(tactic| ledh_err $h) => `(tactic| exact LZ.ledI $h)
+local macro_rules | `(tactic| ledh_err $h) => `(tactic| exact LZA.ledI $h)
 
 local macro_rules
   | `(tactic| ledh_special) => `(tactic| first
-      | exact Hoare.bind (runAct_ledI _ _ _ _) (fun r => Hoare.pure fun _ h =>
-          LIn.bool (by simp [Bool.or_assoc, Bool.or_comm, Bool.or_left_comm]) h)
-      | refine bodyLoop_led (fun _ _ _ _ => ?_))
+      | exact Hoare.bind (runAct_ledIA ‹Accounting _› _ _ _ _) (fun r => Hoare.pure fun _ h =>
+          LInA.bool (by simp [Bool.or_assoc, Bool.or_comm, Bool.or_left_comm]) h)
+      | refine bodyLoop_ledA (fun _ _ _ _ => ?_))
 
-/-- a handler run: it returns `true` iff one of its actions took the event; the flag and the ledger follow -/
-theorem runHandler_led (hk : Key) (it : QItem) (loc : Loc) :
-    Hoare (LIn it Z b) (runHandler hk it loc) (fun o => LIn it Z (o || b)) (fun _ => LedI it Z) := by
+/-- **one handler run**: it returns `true` iff one of its actions took the event; the flag and the ledger follow -/
+theorem runHandler_ledA (hA : Accounting A) (hk : Key) (it : QItem) (loc : Loc) :
+    Hoare (LInA A it Z b) (runHandler hk it loc) (fun o => LInA A it Z (o || b)) (fun _ => LedIA A it Z) := by
   unfold runHandler
   refine Hoare.get_bind fun w hw => ?_
   split
-  · refine Hoare.bind_inv (Hoare.of_keeps (logT_lp _) (fun _ _ h => LZ.ledI h)) fun _ => ?_
+  · refine Hoare.bind_inv (Hoare.of_keeps (logT_lp _) (fun _ _ h => LZA.ledI h)) fun _ => ?_
     dsimp only
     ledh
   · ledh
+
+end generic
+
+/-! ### the instances for `Acct` -/
+
+theorem freshE_led : Hoare (LZ b Z) freshE (fun s => LZ b (s :: Z)) (fun _ => LZ b Z) := freshE_ledA acct_accounting
+theorem push_led (x : QItem) {Y : List Nat} (hY : ledgerOf x = Y) :
+    Hoare (LZ b (Y ++ Z)) (push x) (fun _ => LZ b Z) (fun _ => LZ b Z) := push_ledA acct_accounting x hY
+theorem dropEvent_led (x : QItem) {Y : List Nat} (hY : ledgerOf x = Y) :
+    Hoare (LZ b (Y ++ Z)) (dropEvent x) (fun _ => LZ b Z) (fun _ => LZ b Z) := dropEvent_ledA acct_accounting x hY
+theorem runAct_led (hk : Key) (it : QItem) (loc : Loc) (act : Act) :
+    Hoare (LIn it Z b) (runAct hk it loc act) (fun r => LIn it Z (r || b)) (fun _ => LIn it Z b) :=
+  runAct_ledA acct_accounting hk it loc act
+theorem LIn.bool {it : QItem} {b1 b2 : Bool} {w : World} (hb : b1 = b2) (h : LIn it Z b1 w) : LIn it Z b2 w := hb ▸ h
+theorem runHandler_led (hk : Key) (it : QItem) (loc : Loc) :
+    Hoare (LIn it Z b) (runHandler hk it loc) (fun o => LIn it Z (o || b)) (fun _ => LedI it Z) :=
+  runHandler_ledA acct_accounting hk it loc
 
 /-- dropping an event value whose serial is accounted for in `Y` -/
 theorem dropEventW_led {x : QItem} {Y : List Nat} {w : World} (h : Led (ledgerOf x ++ Y) w) :
